@@ -14,11 +14,14 @@ from typing import Any, List, Optional, Tuple, Union
 @dataclass(frozen=True)
 class U:
     n: int
+    # optional source spelling, e.g. "u08" (zero padded); the parser keeps it as the type's name
+    spell: Optional[str] = field(default=None, compare=False)
 
 
 @dataclass(frozen=True)
 class I:
     n: int
+    spell: Optional[str] = field(default=None, compare=False)
 
 
 @dataclass(frozen=True)
@@ -79,9 +82,9 @@ def type_leaf(t: Type) -> Type:
 
 def type_text(t: Type) -> str:
     if isinstance(t, U):
-        return f"u{t.n}"
+        return t.spell or f"u{t.n}"
     if isinstance(t, I):
-        return f"i{t.n}"
+        return t.spell or f"i{t.n}"
     if isinstance(t, F32):
         return "f32"
     if isinstance(t, F64):
